@@ -179,6 +179,8 @@ func main() {
 		switch {
 		case progs[i] == nil && tf.ExpectRejected:
 			notes = append(notes, "rejected as expected: "+rejected[i])
+		case progs[i] == nil && len(tf.ExpectEvents) > 0:
+			notes = append(notes, "trigger case is rejected by this tree (defect repaired?): "+rejected[i])
 		case progs[i] == nil:
 			problems = append(problems, "REJECTED: "+rejected[i])
 		case tf.ExpectRejected:
@@ -201,7 +203,7 @@ func main() {
 			}
 			for _, w := range tf.ExpectEvents {
 				if !got[w] {
-					problems = append(problems, "missing interpreter event "+w)
+					notes = append(notes, "TRIGGER DID NOT FIRE (defect repaired in this tree?): "+w)
 				}
 			}
 			if len(tf.ExpectEvents) == 0 && len(out.Events) > 0 {
